@@ -2,8 +2,11 @@
 from ..core import Script
 from .. import coregen
 
+from . import _nodecommon
+from .. import nodegen
+
 ID = "C02"
-SUITES = ["core"]
+SUITES = ["core", "node"]
 LEAN_MODULES = ["VpnCloud.Proofs.C02"]
 THEOREMS = ["VpnCloud.Proofs.C02." + n for n in ("roundtrip", "accepted_is_genuine", "reject_no_state", "garbage_rejected", "reflection_rejected", "cross_connection_rejected")]
 BATCH = 100
@@ -39,7 +42,7 @@ def classify(script, result):
     return None
 
 
-def gen(tier, rng):
+def _gen_base(tier, rng):
     return coregen.core_scripts(tier, rng, ID)
 RULE = ("suite core: real CryptoCore pairs for the three ciphers; payload lengths 0..300 (all in thorough, every 7th in quick) and sampled up to 9000 with "
         "varying buffer offsets; for sealed datagrams every bit position and every truncation length, extension, reflection to the sender, "
@@ -50,3 +53,17 @@ LEVEL_TEXT = EXPLANATION
 LEVEL_NOTE = "AEAD idealised (I2/L1); node-level sealing of payload and node information is covered by the node suite"
 TECHNIQUE = "Lean 4 proof over an ideal-AEAD model of CryptoCore + differential correspondence with ring-backed code + reference monitor"
 DESIGN_REF = "DESIGN.md section 5, C02"
+
+
+def gen(tier, rng):
+    for x in _gen_base(tier, rng):
+        yield x
+    thorough = tier == "thorough"
+    # node level: payload and routing information travel sealed and arrive byte-identical; nothing unsealed is accepted from a pending handshake
+    r = rng.fork("node")
+    yield nodegen.basic_script(r, "node-basic", 3, 6)
+    yield nodegen.c08_script(r, "node-states", False)
+    for i in range(8 if thorough else 2):
+        yield nodegen.attack_script(r, "node-attack-%d" % i, 3, 8)
+
+obs_class, nontrivial_key = _nodecommon.with_node(obs_class, nontrivial_key)
